@@ -87,13 +87,13 @@ TABLE = {
             'For every truncation length 0..len-1 of the truncated file (covered by the path partition, 3000+ classes) the reader either raises or returns exactly the observables of all complete records preceding the cut; '
             'the partial-read abstraction is justified by an AST scan of the current source on every run.',
             'openQCD binary formats and sfcf text formats (cuts in selected files of each layout, every byte); truncated json.gz / xml.gz / csv.gz archives are not applicable (gzip / rapidjson / lxml / pandas decide).'),
-    'C04': (True, 'symbolic execution of Obs.__init__ with z3-integer configuration numbers (SMT: rejected iff not strictly increasing, range iff equally spaced) + structural invariant and type-closure assertion on every result of one step of every operator / producer',
-            'Constructor: for all configuration numbers in the box the accept / reject decision, the stored list and the range-vs-list form are decided by the solver on every path; all listed malformed requests are rejected; '
+    'C04': (True, 'symbolic execution of Obs.__init__ with z3-integer configuration numbers (SMT: rejected iff not strictly increasing, range iff equally spaced) + structural invariant and type-closure assertion on every result of one step of every operator / producer; CrossHair (symbolic Python strings, z3) on the real constructors for the chain / covariance names',
+            'Constructor: for all configuration numbers in the box the accept / reject decision, the stored list and the range-vs-list form are decided by the solver on every path; for all short name strings (2 names of <= 2 characters, 3 names of <= 1 character, covariance names of <= 4 characters) the constructor accepts exactly unique names of one ensemble / names without the separator (CrossHair: confirmed over all paths); all listed malformed requests are rejected; '
             'closure: every operator between Obs / CObs / int / float / complex in both orders and the other producers yield well-formed real or complex observables (the same invariant is asserted on every result in C01, C05, C07-C09, C11, C13, C17).',
             'Structure is enumerated (the solver decides values only in the constructor part); pickle outside; known finding: Obs ** complex returns a complex-valued Obs.'),
-    'C16': (True, 'symbolic execution of Corr.GEVP / _GEVP_solver on symbolic matrix entries behind LAPACK contracts (eigh, cholesky, inv); SMT (QF_NRA) eigen-equation and ordering obligations',
-            'WIRING ONLY: every vector returned for state s at time t satisfies G(t) v = lambda G(t0) v on the symmetrised matrices with lambda the s-th largest eigenvalue of the contract; undefined slices and t <= t0 give None; invalid requests are rejected.',
-            'Not applicable to this technique (stated in DESIGN.md section 6): recovery of exact exponentials, agreement of the eigh and Cholesky solutions, eigenvector sorting over time, pruning and the matrix-pencil method - statements about LAPACK output on specific matrices; vector_obs=True.'),
+    'C16': (True, 'symbolic execution of Corr.GEVP / _GEVP_solver on symbolic matrix entries behind LAPACK contracts (eigh, cholesky, inv); SMT (QF_NRA) eigen-equation and ordering obligations; _sort_vectors on symbolic vectors with the determinant as its Leibniz polynomial: returned order maximises the overlap score over all permutations',
+            'WIRING ONLY: every vector returned for state s at time t satisfies G(t) v = lambda G(t0) v on the symmetrised matrices with lambda the s-th largest eigenvalue of the contract; undefined slices and t <= t0 give None; invalid requests are rejected; prune = V^T G_sym V; eigenvector sorting (N = 2, 3): on every timeslice the returned order of the vectors maximises the overlap score with the reference timeslice over all permutations, the vectors themselves untouched.',
+            'Not applicable to this technique (stated in DESIGN.md section 6): recovery of exact exponentials, agreement of the eigh and Cholesky solutions and the matrix-pencil method - statements about LAPACK output on specific matrices; vector_obs=True.'),
 }
 
 NOT_YET = 'check not built yet in this session (work in progress; see DESIGN.md section 4 for the plan)'
@@ -127,7 +127,10 @@ def main():
                    source_commits=[], add_only=True),
         engines=[dict(name='symx', path='/verif/symx', serves_properties=[c['property_id'] for c in checks],
                       kind_free_text='re-execution symbolic executor for numpy-object-array code on z3 Real/Int proxies; fresh z3 solver per query; '
-                      'contract stubs for compiled numerics; concrete replay of every counterexample')],
+                      'contract stubs for compiled numerics; concrete replay of every counterexample'),
+                 dict(name='crosshair', path='/verif/symx/xhair.py', serves_properties=['C04'],
+                      kind_free_text='crosshair-tool 0.0.110 (symbolic execution of Python with z3) on contracts in props/xh_*.py that call the real pyerrors constructors with symbolic strings; '
+                      'only "Confirmed over all paths" counts as discharged, counterexamples are replayed as plain calls')],
         checks=checks,
         notes='Exit codes: 0 property held on everything explored; 1 replay-confirmed violation (VIOLATION line); 3 inconclusive / harness error. '
               'Known findings are listed in /verif/known_findings.json.',
